@@ -259,10 +259,16 @@ pub fn run(ctx: &mut Ctx) -> (String, Value, Vec<String>) {
                 n.fetch_add(1, Ordering::Relaxed);
                 let got = catch(|| run_history(pf, &hist, true));
                 let want = catch(|| run_history(pf, &hist, false));
-                if got != want {
+                if got != want || got.is_err() {
                     let mut b = bad.lock().unwrap();
                     if b.len() < 60 {
-                        let key = if got.is_err() { "wcet::ExtrapolatingCurve#fails-on-shared-state" } else {
+                        let key = if got.is_err() && want.is_err() {
+                            "wcet::ExtrapolatingCurve#panic"
+                        } else if got.is_err() {
+                            "wcet::ExtrapolatingCurve#fails-on-shared-state"
+                        } else if want.is_err() {
+                            "wcet::ExtrapolatingCurve#fresh-object-panics"
+                        } else {
                             // which kind of query differs first?
                             let (g, w) = (got.as_ref().unwrap(), want.as_ref().unwrap());
                             let i = (0..hist.len()).find(|i| g[*i] != w[*i]).unwrap();
